@@ -3,6 +3,7 @@ import SqlModel.KwNorm
 import SqlProofs.SplitValue
 import SqlProofs.Respell.All
 import SqlProofs.WsInv.WsInvariant
+import SqlProofs.WsRespell.Theorem
 /-!
 # C11 — parsing is insensitive to inter-token whitespace and keyword letter case
 
@@ -58,5 +59,18 @@ same gaps (`WsEquiv`) group to trees with identical skeletons -/
 theorem whitespace_count_invariant : type_of% @Sql.ws_invariant_partial' := @Sql.ws_invariant_partial'
 /-- … and grouping the statement with ALL whitespace tokens deleted gives the skeleton of the original tree -/
 theorem group_skel_canonical : type_of% @Sql.group_skel_canonical := @Sql.group_skel_canonical
+
+/-- **the lexical step** (SqlProofs/WsRespell): if a text lexes to `toks`, `toks` satisfies the decidable `wsRespellable` (driver command
+`wsrespell`; it rejects comments, dollar-quoted literals, the double-quote fallback and `#`/`-` directly before whitespace — where the library
+really is whitespace-sensitive) and `toks'` re-spells every whitespace token with the same number of arbitrary whitespace characters (blank ↔ tab
+↔ any line break ↔ NBSP …), then the re-spelled TEXT lexes, and to a token list `WsEquiv` to the original — the relation
+`whitespace_count_invariant` consumes.  Together: re-spelled text ⇒ same tree skeleton, on the two decidable domains. -/
+theorem respelled_text_lexes_equivalently : type_of% @Sql.ws_respell_lex := @Sql.ws_respell_lex
+/-- the same composed with re-casing of keywords (through `relex_case_mapped`) -/
+theorem respelled_and_recased_text_lexes_equivalently : type_of% @Sql.respell_lex := @Sql.respell_lex
+/-- the hypothesis is neither vacuous nor trivially true -/
+theorem wsRespellable_examples : type_of% @Sql.wsRespellable_examples := @Sql.wsRespellable_examples
+/- NOT proved: re-spellings that change the LENGTH of a whitespace run (`a  b` vs `a b`): stated as `Sql.WsRespellLexAnyConjecture : Prop`
+in SqlProofs/WsRespell/Theorem.lean (a definition, not a theorem); explored by the metamorphic oracle only. -/
 
 end Sql.C11
